@@ -88,7 +88,10 @@ def worker(args, scratch):
                 conn.send(rawhttp.build_request(method, target, hs, body))
                 resp = conn.read_response(method.encode())
             except Exception as e:  # noqa
-                res["violations"].append(["no-response", {"id": vid, "err": repr(e)}])
+                if common.is_timeout(e):
+                    res.setdefault("inconclusive", []).append("client socket watchdog (60 s) fired while waiting for the proxy; not a verdict") if not res.get("inconclusive") else None
+                else:
+                    res["violations"].append(["no-response", {"id": vid, "err": repr(e)}])
                 conn.close()
                 continue
             conn.close()
